@@ -15,7 +15,7 @@ ZeroV == <<0, 0>>
 SizeOf(s, v) == IF s.unit THEN 1 ELSE v[2]
 RECURSIVE SumSizes(_, _)
 SumSizes(s, ks) == IF ks = <<>> THEN 0 ELSE SizeOf(s, s.val[ks[1]]) + SumSizes(s, Tail(ks))
-CSize(s) == SumSizes(s, s.order)
+CSize(s) == IF s.unit THEN Len(s.order) ELSE SumSizes(s, s.order)
 CLen(s) == Len(s.order)
 Present(s, k) == \E i \in DOMAIN s.order : s.order[i] = k
 Without(q, k) == SelectSeq(q, LAMBDA x : x # k)
@@ -48,6 +48,15 @@ LRemove(s, k) ==
   IF Present(s, k)
     THEN [s |-> [s EXCEPT !.order = Without(s.order, k)], res |-> TRUE, ev |-> <<<<k, s.val[k][1], s.val[k][2]>>>>]
     ELSE [s |-> s, res |-> FALSE, ev |-> <<>>]
+
+\* n consecutive Puts of fresh keys k .. k+n-1 with unit-size values <<key, 1>> (bulk form used for
+\* very large caches); defined here only when they all fit without eviction
+LFill(s, k, n) ==
+  IF CSize(s) + n <= s.limit /\ \A i \in DOMAIN s.order : s.order[i] < k \/ s.order[i] >= k + n
+    THEN [s |-> [s EXCEPT !.order = s.order \o [i \in 1..n |-> k + i - 1],
+                          !.val = [x \in k..(k + n - 1) |-> <<x, 1>>] @@ s.val],
+          res |-> TRUE, ev |-> <<>>]
+    ELSE [s |-> s, res |-> FALSE, ev |-> <<"unsupported">>]
 
 \* Clear reports every entry exactly once; the order is not specified.
 ClearEvs(s) == {<<s.order[i], s.val[s.order[i]][1], s.val[s.order[i]][2]>> : i \in DOMAIN s.order}
